@@ -602,6 +602,20 @@ static void check_box(const Cfg<V> &c, int ia, Counters &C, uint64_t &h)
       wu[i] = c.gv[c.bu[ia][i]] * sc[i];
     }
     const V s = Tr::make(sc), wlo = Tr::make(wl), wup = Tr::make(wu);
+    // the empty box scaled by positive factors stays empty (checked once per scale vector, with the first non-empty box: box 0 is the empty box and returned above)
+    if (ia == 1 && pos && std::is_floating_point<typename Tr::S>::value)  // (integer boxes: the empty box is [MAX,MIN] and scaling it overflows - not defined)
+      for (int order = 0; order < 2; order++) {
+        const Box e;
+        const Box R = order == 0 ? e * s : s * e;
+        C.states++;
+        C.trans += c.NP;
+        for (int p = 0; p < c.NP; p++)
+          if (R.contains(c.P[p])) {
+            VIOL(C, 4, c.name + (order == 0 ? " box*scale" : " scale*box") + "|the empty box scaled by positive factors contains a point|an operand is the empty box", spec,
+                "empty * " + vstr(s) + " = " + bstr(R) + " contains " + vstr(c.P[p]));
+            break;
+          }
+      }
     for (int order = 0; order < 2; order++) {
       const Box R = order == 0 ? a * s : s * a;
       C.states++;
